@@ -123,6 +123,16 @@ def apply_op(lst, op, validate):
         lst.extend(vs(op[1]))
     elif name == "iadd":
         lst += vs(op[1])
+    # the list itself as the argument (the model validates a snapshot of its own items once more)
+    elif name == "extend_self":
+        lst.extend(vs(list(lst)) if is_model else lst)
+    elif name == "iadd_self":
+        if is_model:
+            lst += vs(list(lst))
+        else:
+            lst += lst
+    elif name == "setslice_self":
+        lst[slice(*op[1])] = vs(list(lst)) if is_model else lst
     elif name == "imul":
         lst *= op[1]
     elif name == "remove":
@@ -179,7 +189,7 @@ def run_single(L, op, ctx, validate=None, tl=None, model=None, vreset=None):
         else:
             val_exc = e2
         # further independent faults of the same call
-        if op[0] in ("setslice", "delslice", "setslice_eq", "setslice_fit") and op[1][2] == 0:
+        if op[0] in ("setslice", "delslice", "setslice_eq", "setslice_fit", "setslice_self") and op[1][2] == 0:
             allowed.add(ValueError)
         if op[0] in ("setslice", "extend", "iadd") and not isinstance(op[-1], list):
             allowed.add(TypeError)
@@ -345,6 +355,8 @@ OP = st.one_of(
     st.tuples(st.just("append"), ITEM),
     st.tuples(st.just("extend"), ITEMS),
     st.tuples(st.just("iadd"), ITEMS),
+    st.tuples(st.just("extend_self")), st.tuples(st.just("iadd_self")),
+    st.tuples(st.just("setslice_self"), st.tuples(OPT_IDX, OPT_IDX, st.sampled_from([None, None, 1, 2, -1]))),
     st.tuples(st.just("imul"), st.one_of(st.integers(-1, 3), st.sampled_from([0.5, 0.0, -1.0, 2.5, "5", None, True, False]))),
     st.tuples(st.just("remove"), ITEM),
     st.tuples(st.just("reverse")),
@@ -383,7 +395,10 @@ def hist_run(case, ctx):
             except TypeError:
                 continue
         ctx.label("op:" + op[0])
-        if op[0] in ("setslice", "delslice", "setslice_eq", "setslice_fit"):
+        if op[0] in ("extend_self", "iadd_self", "setslice_self"):
+            interesting = True
+            ctx.label("self-as-argument")
+        if op[0] in ("setslice", "delslice", "setslice_eq", "setslice_fit", "setslice_self"):
             if op[1][2] not in (None, 1):
                 interesting = True
                 ctx.label("extended-slice")
